@@ -24,8 +24,8 @@ PLANS = {
         "quick": [("c01q", inst(LeafFam="<-C01LeavesQ", MaxLeaves=2, MaxCalls=3), {"clones": 0}, None)],
         "thorough": [("c01t", inst(LeafFam="<-C01LeavesT", MaxLeaves=2, MaxCalls=4), {"clones": 1}, None),
                      ("c01n", inst(LeafFam="<-C01LeavesQ", MaxLeaves=2, MaxCalls=3, HasStd=False), {"nostd": True}, None),
-                     ("c01t3", inst(LeafFam="<-C01LeavesQ", MaxLeaves=3, MaxCalls=4, Arg="{0, 1, 2}"), {"clones": 0},
-                      {"num": 400000, "depth": 8})],
+                     ("c01t3", inst(LeafFam="<-C01Leaves3", MaxLeaves=3, MaxCalls=5), {"clones": 0},
+                      {"num": 200000, "depth": 8})],
     },
     "C02": {
         "quick": [("c02q", inst(LeafFam="<-C02LeavesQ", MaxLeaves=1, MaxCalls=5, Vias="<-cViaVerify"), {"clones": 2}, None)],
@@ -36,13 +36,13 @@ PLANS = {
                    {"vias": "drop,verify,report"}, None)],
         "thorough": [("c03t", inst(LeafFam="<-C03LeavesT", MaxLeaves=2, MaxCalls=4, StrictFam="<-cStrictOnly"),
                       {"vias": "drop,verify,report"}, None),
-                     ("c03t3", inst(LeafFam="<-C03LeavesQ", MaxLeaves=3, MaxCalls=6, StrictFam="<-cStrictOnly"),
-                      {"vias": "drop,verify,report"}, {"num": 300000, "depth": 9})],
+                     ("c03t3", inst(LeafFam="<-C03Leaves3", MaxLeaves=3, MaxCalls=6, StrictFam="<-cStrictOnly"),
+                      {"vias": "drop,verify,report"}, {"num": 200000, "depth": 9})],
     },
     "C04": {
         "quick": [("c04q", inst(LeafFam="<-C04LeavesQ", MaxLeaves=3, MaxCalls=5, StrictFam="<-cStrictOnly", StopAfterDeviation=True), {}, None)],
         "thorough": [("c04t", inst(LeafFam="<-C04LeavesT", MaxLeaves=3, MaxCalls=6, StrictFam="<-cStrictOnly", StopAfterDeviation=True), {"clones": 1}, None),
-                     ("c04t4", inst(LeafFam="<-C04LeavesT", MaxLeaves=4, MaxCalls=8, StopAfterDeviation=True), {}, {"num": 400000, "depth": 10})],
+                     ("c04t4", inst(LeafFam="<-C04LeavesQ", MaxLeaves=4, MaxCalls=8, StopAfterDeviation=True), {}, {"num": 200000, "depth": 10})],
     },
     "C07": {
         "quick": [("c07q", inst(LeafFam="<-C07Leaves", MaxLeaves=1, MaxCalls=3, OnlyMentioned=False,
